@@ -162,6 +162,7 @@ def analyse_class(ctx, cls, indirect):
     cap = 4000 if ctx.tier == "quick" else 100000
     consts = dict(ctx.env)
     consts.update({"str": str, "int": int, "list": list})
+    consts.update(ctx.self_env(cls))
     resolver = make_resolver(ctx.repo, fn)
     results = []
     rights = GRAMMAR_RIGHT + PROBES_RIGHT
@@ -169,7 +170,7 @@ def analyse_class(ctx, cls, indirect):
         rights = rights + THOROUGH_PROBES
     for right in rights:
         for left in LEFT_KINDS:
-            it = Interp(node, consts=consts, sym_attrs=("_sz",), maxpaths=cap, resolver=resolver,
+            it = Interp(node, consts=consts, sym_attrs=("_sz",), maxpaths=cap, resolver=resolver, strict_unknown=False,
                         init_env={"self.right": Const(right), "self.left": Const(left)})
             for o in it.run():
                 results.append((right, left, o))
@@ -220,6 +221,11 @@ def _judge(ctx, c_enc1, c_enc2, c_enc3, c_enc4, c_enc6, cls, indirect):
             continue
         v = o.value
         where = repo.loc(fn, o.node)
+        if o.path.unk:
+            # a branch was taken both ways because the interpreter cannot evaluate its condition: this outcome may be infeasible
+            for cc in (c_enc1, c_enc2, c_enc3, c_enc4, c_enc6):
+                emit(cc, "undecided", site0, "condition-not-evaluable", "%s: `%s` is of a shape the interpreter does not model" % (cls, strip_ver(o.path.unk[0])[:80]), where)
+            continue
         if not (isinstance(v, Ctor) and v.cls == "CodePackage"):
             emit(c_enc1, "undecided", site0, "return-not-CodePackage", repr(v)[:80], where)
             continue
@@ -426,9 +432,12 @@ def _judge(ctx, c_enc1, c_enc2, c_enc3, c_enc4, c_enc6, cls, indirect):
                          "choices=[%s]" % ",".join("%#04x" % x for x in ch) + ("" if ch == want_choices else "(datasheet %#04x,%#04x)" % tuple(want_choices)),
                          "%s: label,PCR must choose between post-bytes %02X (8-bit) and %02X (16-bit), path offers %s"
                          % (cls, want_choices[0], want_choices[1], ch), where)
-                base_ok = not opaque and (mask | want_choices[0]) == want_choices[0] and (mask | want_choices[1]) == want_choices[1]
-                emit(c_enc1, "ok" if base_ok else "finding", sitep + ":base", "base post-byte adds nothing to the PCR choice" if base_ok else "base=%#04x pollutes the PCR post-byte" % mask,
-                     "%s: the post-byte base %02X OR-ed with the PCR choice does not give the datasheet post-byte" % (cls, mask), where)
+                base_ok = (mask | want_choices[0]) == want_choices[0] and (mask | want_choices[1]) == want_choices[1]
+                if opaque and base_ok:
+                    emit(c_enc1, "undecided", sitep + ":base", "base-post-byte-has-opaque-bits", repr(opaque)[:60], where)
+                else:
+                    emit(c_enc1, "ok" if base_ok else "finding", sitep + ":base", "base post-byte adds nothing to the PCR choice" if base_ok else "base=%#04x pollutes the PCR post-byte" % mask,
+                         "%s: the post-byte base %02X OR-ed with the PCR choice does not give the datasheet post-byte" % (cls, mask), where)
                 if size_inc is not None and max_inc is not None:
                     good = size_inc == 0 and max_inc == 2
                     emit(c_enc3, "ok" if good else "finding", sitep, "size+0,max+2" if good else "size+%d,max_size+%d(expected +0,+2 before the choice)" % (size_inc, max_inc),
